@@ -23,6 +23,13 @@ func Next() Seq {
 	return Seq(atomic.AddUint64(&seq, 1))
 }
 
+// NextN draws n consecutive numbers in one step and returns the first of them:
+// nobody else's number falls between them.
+func NextN(n int) Seq {
+	verifhook.At("seq.next")
+	return Seq(atomic.AddUint64(&seq, uint64(n)) - uint64(n) + 1)
+}
+
 func (s Seq) After(o Seq) bool {
 	return s > o
 }
